@@ -2404,6 +2404,18 @@ def _m_ptr_write(eng, st, callee, args, ev):
     return UNIT
 
 
+def _m_ptr_read(eng, st, callee, args, ev):
+    """ptr.read() / ptr::read(ptr): a load through the pointer (the same event and value as `*ptr`)"""
+    if len(args) != 1:
+        return NotImplemented
+    p = args[0]
+    fr = st.frames[-1]
+    ty = (callee.get("args") or ["?"])[0]
+    st.events.append({"k": "rawderef", "ptr": p, "ty": "*const " + str(ty), "rw": "r", "fn": fr["fn"], "bb": fr["bb"], "pc": len(st.pc)})
+    loc = p[1] if p[0] == "ref" else ("P", p)
+    return eng.read(st, loc)
+
+
 def _known_elems_at(eng, st, src, n):
     """the n elements a pointer term points at, when it is the start of a known small array / one-element view"""
     base = src
@@ -2476,6 +2488,9 @@ SLICE_MODELS = {
     "std::ptr::mut_ptr::<impl *mut T>::write": _m_ptr_write,
     "core::ptr::mut_ptr::<impl *mut T>::write": _m_ptr_write,
     "std::ptr::write": _m_ptr_write,
+    "std::ptr::const_ptr::<impl *const T>::read": _m_ptr_read, "core::ptr::const_ptr::<impl *const T>::read": _m_ptr_read,
+    "std::ptr::mut_ptr::<impl *mut T>::read": _m_ptr_read, "core::ptr::mut_ptr::<impl *mut T>::read": _m_ptr_read,
+    "std::ptr::read": _m_ptr_read, "core::ptr::read": _m_ptr_read,
     "core::ptr::write": _m_ptr_write,
     "std::ptr::copy_nonoverlapping": _m_copy_nonoverlapping,
     "core::ptr::copy_nonoverlapping": _m_copy_nonoverlapping,
